@@ -66,3 +66,64 @@ def discharge_all(obs, timeout_ms=20000):
         if ob.result is None:
             discharge(ob, timeout_ms)
     return obs
+
+
+def _worker(args):
+    text, timeout_ms = args
+    import z3 as _z3
+    s = _z3.Solver()
+    s.set("timeout", timeout_ms)
+    try:
+        s.from_string(text)
+    except Exception as e:          # pragma: no cover
+        return ("parse-error: " + str(e)[:200], 0.0, "")
+    t0 = time.time()
+    r = s.check()
+    dt = time.time() - t0
+    return (str(r), dt, s.reason_unknown() if r == _z3.unknown else "")
+
+
+_pool = None
+
+
+def pool(procs=14):
+    global _pool
+    if _pool is None:
+        import multiprocessing as mp
+        from concurrent.futures import ProcessPoolExecutor
+        _pool = ProcessPoolExecutor(max_workers=procs, mp_context=mp.get_context("fork"))
+    return _pool
+
+
+def shutdown_pool():
+    global _pool
+    if _pool is not None:
+        _pool.shutdown(wait=False, cancel_futures=True)
+        _pool = None
+
+
+def discharge_parallel(obs, timeout_ms=20000, procs=14, min_batch=12):
+    """discharge many obligations on all cores: each is shipped as SMT-LIB text to a worker
+    process running z3; refuted ones are re-solved locally to obtain a model"""
+    todo = [ob for ob in obs if ob.result is None]
+    if len(todo) < min_batch:
+        for ob in todo:
+            discharge(ob, timeout_ms)
+        return obs
+    texts = [(smt2_of(ob), timeout_ms) for ob in todo]
+    results = list(pool(procs).map(_worker, texts, chunksize=max(1, len(texts) // (procs * 4))))
+    for ob, (r, dt, why) in zip(todo, results):
+        ob.time = dt
+        ob.backend = "z3-" + z3.get_version_string()
+        if r == "unsat":
+            ob.result = "discharged"
+        elif r == "sat":
+            discharge(ob, timeout_ms)           # local re-solve for the model
+            if ob.result != "failed":
+                ob.result = "failed"
+        elif r.startswith("parse-error"):
+            discharge(ob, timeout_ms)
+        else:
+            ob.result = "unknown"
+            ob.meta["reason"] = why
+    return obs
